@@ -334,9 +334,20 @@ func altSpec(d docSpec, tn string) typeSpec {
 
 func c03Include(c *ctx, d docSpec, incs []resSpec, alts []bool, how string) {
 	var obs, key, detail string
+	viaUnmarshal := strings.HasPrefix(how, "unmarshaled")
 	p, pv := guard(func() {
-		doc, _ := d.build()
+		doc, u := d.build()
 		doc.Included = nil
+		if viaUnmarshal {
+			// the same document as a server receives it: marshaled, then unmarshaled
+			if out, err := jsonapi.MarshalDocument(doc, u); err == nil {
+				if doc2, err := jsonapi.UnmarshalDocument(out, d.sc.build()); err == nil && doc2.Data != nil {
+					doc2.PrePath = doc.PrePath
+					doc = doc2
+					doc.Included = nil
+				}
+			}
+		}
 		for i, rs := range incs {
 			if alts[i] {
 				doc.Include(buildRes(altSpec(d, rs.tn), rs.wrapped, rs.ops))
@@ -431,6 +442,9 @@ func runC03(c *ctx) {
 			}
 		}
 		c03Include(c, d, incs, alts, "random")
+		if c.r.chance(1, 2) {
+			c03Include(c, d, incs, alts, "unmarshaled, then Include")
+		}
 	}
 }
 
